@@ -229,9 +229,10 @@ class LibraryController:
         """
         validation.check_uris(uris)
 
+        backends_to_uris = self._get_backends_to_uris(uris)
         futures = {
             backend: backend.library.lookup_many(backend_uris)
-            for (backend, backend_uris) in self._get_backends_to_uris(uris).items()
+            for (backend, backend_uris) in backends_to_uris.items()
             if backend_uris
         }
         results = {u: [] for u in uris}
@@ -242,6 +243,9 @@ class LibraryController:
                 if result is not None:
                     validation.check_instance(result, Mapping)
                     for uri, tracks in result.items():
+                        if uri not in (backends_to_uris[backend] or ()):
+                            msg = f"Got unknown lookup URI: {uri}"
+                            raise exceptions.ValidationError(msg)
                         # TODO: Consider making Track.uri field mandatory, and
                         # then remove this filtering of tracks without URIs.
                         validation.check_instances(tracks, Track)
